@@ -286,6 +286,10 @@ func runC17(c *Ctx) {
 				rc := ""
 				if len(p.Rets) == 1 {
 					rc = retClass(p.Rets[0])
+					// `return err` with err the result of a check the scenario makes succeed is a nil return
+					if sc.ok && (rc == "call:"+fnName(chk) || rc == "call:"+fnName(val)) {
+						rc = "nil"
+					}
 				}
 				di := p.Index(0, lbl("call:"+fnName(hd)))
 				si := p.Index(0, lbl("store:target.Config.configuration"))
@@ -391,11 +395,37 @@ func runC17(c *Ctx) {
 				}
 			}
 		})
+		// ... or cloned in one call: pending := maps.Clone(<new configuration>.GetTarget())
+		isClone := func(v ssa.Value) (*ssa.Call, bool) {
+			call, ok := v.(*ssa.Call)
+			if !ok {
+				return nil, false
+			}
+			g := staticCallee(&call.Call)
+			return call, g != nil && pkgPathOf(g) == "maps" && strings.HasPrefix(g.Name(), "Clone")
+		}
 		if cfgParam == nil {
-			c.Unresolved("C17.classify", "the copy loop `pending[k] = t` over <new configuration>.GetTarget() in handleDiffs")
+			instrs(hd, func(in ssa.Instruction) {
+				if call, ok := in.(*ssa.Call); ok {
+					if cl, ok := isClone(call); ok && len(cl.Call.Args) == 1 {
+						if gt, ok := cl.Call.Args[0].(*ssa.Call); ok && calleeName(&gt.Call) == "(*proto/target.Configuration).GetTarget" {
+							cfgParam = gt.Call.Args[0]
+						}
+					}
+				}
+			})
+		}
+		if cfgParam == nil {
+			c.Unresolved("C17.classify", "the copy of <new configuration>.GetTarget() into a local pending map in handleDiffs (loop or maps.Clone)")
 			return
 		}
-		isLocalMap := func(v ssa.Value) bool { _, ok := v.(*ssa.MakeMap); return ok }
+		isLocalMap := func(v ssa.Value) bool {
+			if _, ok := v.(*ssa.MakeMap); ok {
+				return true
+			}
+			_, ok := isClone(v)
+			return ok
+		}
 		cls := func(e *PPA, st *State, rv RV) string {
 			rv = e.Resolve(st, rv)
 			switch v := rv.V.(type) {
@@ -406,6 +436,13 @@ func runC17(c *Ctx) {
 						return "RCH"
 					}
 					return "NT"
+				}
+			case *ssa.Extract:
+				// membership in a local set: _, changed := set[k]
+				if lk, ok := v.Tuple.(*ssa.Lookup); ok && lk.CommaOk && v.Index == 1 {
+					if x := e.Resolve(st, RV{rv.F, lk.X}); isLocalMap(x.V) {
+						return "RCH"
+					}
 				}
 			case *ssa.Call:
 				if calleeName(&v.Call) == "google.golang.org/protobuf/proto.Equal" && isNamed(unwrap(v.Call.Args[0]).Type(), "proto/target", "Target") {
@@ -452,10 +489,11 @@ func runC17(c *Ctx) {
 			}
 			okReq := false
 			if lk, ok := req.V.(*ssa.Lookup); ok {
-				if call, ok := lk.X.(*ssa.Call); ok && calleeName(&call.Call) == "(*proto/target.Configuration).GetRequest" && call.Call.Args[0] == cfgParam {
+				// operands are read in the frame that built the struct (a helper entered on this path, or handleDiffs itself)
+				if call, ok := lk.X.(*ssa.Call); ok && calleeName(&call.Call) == "(*proto/target.Configuration).GetRequest" && frameResolve(RV{req.F, call.Call.Args[0]}).V == cfgParam {
 					if kc, ok := lk.Index.(*ssa.Call); ok && calleeName(&kc.Call) == "(*proto/target.Target).GetRequest" {
 						// keyed by the target being announced
-						okReq = kc.Call.Args[0] == tgt.V
+						okReq = frameResolve(RV{req.F, kc.Call.Args[0]}).V == tgt.V
 					}
 				}
 			}
@@ -570,13 +608,13 @@ func runC17(c *Ctx) {
 					bad++
 					c.Bad("C17.readonly", fnName(f), "store through "+Expr(x.Addr), P.Pos(in.Pos()), "the diff must not write either configuration")
 				case *ssa.MapUpdate:
-					if _, ok := x.Map.(*ssa.MakeMap); !ok {
+					if !localMapValue(x.Map) {
 						bad++
 						c.Bad("C17.readonly", fnName(f), "map update of "+Expr(x.Map), P.Pos(in.Pos()), "only local maps may be mutated")
 					}
 				case *ssa.Call:
 					if b, ok := x.Call.Value.(*ssa.Builtin); ok && b.Name() == "delete" {
-						if _, ok := x.Call.Args[0].(*ssa.MakeMap); !ok {
+						if !localMapValue(x.Call.Args[0]) {
 							bad++
 							c.Bad("C17.readonly", fnName(f), "delete on "+Expr(x.Call.Args[0]), P.Pos(in.Pos()), "only local maps may be mutated")
 						}
@@ -614,4 +652,17 @@ func runC17(c *Ctx) {
 		})
 		c.Check(okClone, "C17.readonly", fnName(cur), "Current returns a clone", P.Pos(cur.Pos()), "")
 	}
+}
+
+// localMapValue: a map made in the function: make(...) / a literal, or a fresh copy from maps.Clone.
+func localMapValue(v ssa.Value) bool {
+	if _, ok := v.(*ssa.MakeMap); ok {
+		return true
+	}
+	if call, ok := v.(*ssa.Call); ok {
+		if g := staticCallee(&call.Call); g != nil && pkgPathOf(g) == "maps" && strings.HasPrefix(g.Name(), "Clone") {
+			return true
+		}
+	}
+	return false
 }
